@@ -239,15 +239,15 @@ theorem step_hsel (a : Agent) (e : Ev) : HSel False a (step a e) := by
       · exact (inboundData_hsel a now _ src len).1
   | write now len sl => exact (write_hsel a now len sl).1
   | writeToPair now id len sl => exact (writeToPair_hsel a now id len sl).1
-  | read =>
+  | read cap =>
     simp only [step]
     split
     · exact HSel.refl_out _ _ _ (noReq_res _)
     · split
       · exact HSel.refl_out _ _ _ (noReq_res _)
       · rename_i n rest _
-        have := (HSel.of_pres (wp := False) (a := a) (a' := { a with rx := rest, connBytesRecv := a.connBytesRecv + n })
-            (Pres.of_eq rfl rfl rfl rfl fun _ => rfl) rfl).add_out _ (noReq_res s!"read:{n}")
+        have := (HSel.of_pres (wp := False) (a := a) (a' := { a with rx := rest, connBytesRecv := a.connBytesRecv + min n cap })
+            (Pres.of_eq rfl rfl rfl rfl fun _ => rfl) rfl).add_out _ (noReq_res (if cap < n then s!"short:{cap}" else s!"read:{n}"))
         simpa using this
   | renominate now la ri v =>
     simp only [step]
